@@ -71,6 +71,13 @@ def run_body(h, run, kind):
             return I.Sym('bool', exists[k])
         if qual == 'os.path.abspath':
             return PathTerm('abspath', args[0])
+        if qual in ('os.path.realpath', 'os.path.normpath', 'os.path.normcase', 'os.path.expanduser'):
+            return PathTerm(qual.split('.')[-1], args[0])
+        if qual in ('os.path.isfile', 'os.path.isdir', 'os.path.isabs'):
+            k = (qual, pkey(args[0]))
+            if k not in exists:
+                exists[k] = z3.Bool('%s_%d' % (qual.split('.')[-1], len(exists)))
+            return I.Sym('bool', exists[k])
         if qual == 'os.path.dirname':
             return PathTerm('dirname', args[0])
         if qual == 'os.path.join':
